@@ -230,8 +230,15 @@ package hsrv
 
 // Do: the file one-liners show the listener's fingerprint.
 //@ func Server.Do(s, ctx) (err)
-//@   props C05
+//@   props C05 C20 C04
 //@   nosafety
+//@   ghost added bool = false
+//@   ghost removed bool = false
+//@   ghost closed bool = false
+//@   on enter iobroker.Broker.AddEventListener(b, ch): assert(b == s.iob && ch == evCh && !added, "listens_on_its_own_channel"); added = true
+//@   on enter iobroker.Broker.RemoveEventListener(b, ch): assert(b == s.iob && ch == evCh && added && !closed, "stops_listening_before_closing_the_channel"); removed = true
+//@   on close evCh(): assert(removed && !closed, "channel_closed_only_after_the_broker_stopped_sending_to_it"); closed = true
+//@   ensures listener_removed_and_channel_closed_on_every_exit: added && removed && closed
 //@   on enter Server.Printf(ss, c, f, v): if f == CurlFormat + FileSuffix { assert(boxes(v[0], s.l.Fingerprint), "file_one_liner_shows_listener_fingerprint") }
 
 // listenAddresses: a callback address without a port gets the port the
